@@ -105,6 +105,7 @@ FailEv(x, off, w, inv, matched) ==
        IF off > x.fmax THEN [x EXCEPT !.fmax = off, !.fset = {ww}, !.fany = TRUE]
        ELSE [x EXCEPT !.fset = @ \cup {ww}, !.fany = TRUE]
 
+BlkMsg(C, n) == IF C.opt.samemsg THEN "same" ELSE "e" \o ToString(n.blk)      \* the text of a code block's error
 ErrRec(C, pos, alt, rn, msg) == [pos |-> LineCol(C.inp, pos), alt |-> LineCol(C.inp, alt), rule |-> rn, msg |-> msg]
 AddErr(C, x, pos, rn, msg) == [x EXCEPT !.errs = Append(@, ErrRec(C, pos, pos, rn, msg))]
 (* advancing onto offset o: an ill-formed byte there is reported (C17) *)
@@ -191,7 +192,7 @@ Ev(C, e, x0, inv, rn) ==
          IN IF n.blk = C.opt.panicblk
             THEN Res(FALSE, Nil, [x1 EXCEPT !.ab = "panic", !.abinfo = <<r.x.pos, pos, rn, n.blk>>])
             ELSE Res(TRUE, <<"a", n.blk, <<<<"b", text>>>> \o args>>,
-                     IF BlockErrs(C, n) THEN AddErr(C, x1, pos, rn, "e" \o ToString(n.blk)) ELSE x1)
+                     IF BlockErrs(C, n) THEN AddErr(C, x1, pos, rn, BlkMsg(C, n)) ELSE x1)
     [] n.k = "state" ->
          LET args == [i \in 1..Len(n.args) |-> Lookup(x.env, n.args[i], Len(x.env))]
              ev == [blk |-> n.blk, kind |-> "state", pos |-> LineCol(C.inp, pos), text |-> <<>>,
@@ -205,7 +206,7 @@ Ev(C, e, x0, inv, rn) ==
              x1 == [x EXCEPT !.log = Append(@, ev), !.store = st1, !.g = @ + n.g]
          IN IF n.blk = C.opt.panicblk
             THEN Res(FALSE, Nil, [x1 EXCEPT !.ab = "panic", !.abinfo = <<pos, pos, rn, n.blk>>])
-            ELSE Res(TRUE, Nil, IF BlockErrs(C, n) THEN AddErr(C, x1, pos, rn, "e" \o ToString(n.blk)) ELSE x1)
+            ELSE Res(TRUE, Nil, IF BlockErrs(C, n) THEN AddErr(C, x1, pos, rn, BlkMsg(C, n)) ELSE x1)
     [] n.k \in {"andcode", "notcode"} ->
          LET args == [i \in 1..Len(n.args) |-> Lookup(x.env, n.args[i], Len(x.env))]
              ev == [blk |-> n.blk, kind |-> "pred", pos |-> LineCol(C.inp, pos), text |-> <<>>,
@@ -220,7 +221,7 @@ Ev(C, e, x0, inv, rn) ==
          IN IF n.blk = C.opt.panicblk
             THEN Res(FALSE, Nil, [x1 EXCEPT !.ab = "panic", !.abinfo = <<pos, pos, rn, n.blk>>])
             ELSE Res(IF n.k = "andcode" THEN b ELSE ~b, Nil,
-                     IF BlockErrs(C, n) THEN AddErr(C, x1, pos, rn, "e" \o ToString(n.blk)) ELSE x1)
+                     IF BlockErrs(C, n) THEN AddErr(C, x1, pos, rn, BlkMsg(C, n)) ELSE x1)
     [] n.k = "ref" ->
          LET r == EvRule(C, n.rule, [x EXCEPT !.env = <<>>], inv) IN
          IF Ab(r.x) THEN r ELSE Res(r.ok, r.val, [r.x EXCEPT !.env = x.env])
